@@ -262,7 +262,7 @@ def run(ctx):
                                                                         'unimod-name': 3, 'glycan': 1},
                       p_static=0.2, p_isotope=1.0, labels=LABELS, p_interval=0.1, p_unknown=0.1, p_charge=0.0,
                       p_labile=0.15, p_tag=0.0, p_alt=0.0, p_mult=0.1, p_res=0.3)
-    for i in range(ctx.n(10000, 500000)):
+    for i in range(ctx.n(20000, 500000)):
         if i % 2 == 0:
             p = gp.gen_pep(ctx.rng, cfg_s)
             if p.static:
